@@ -110,6 +110,13 @@ def triple_s(draw, tier, focus=None):
                 if p == M.apos(n):
                     continue  # the agent never stands on a blocking cell (stated assumption of the distance rewards)
                 n['grid'][p[0]][p[1]] = f'D:{draw(st.sampled_from(objs.STATUSES))}:{M.color_of(M.cell(n, p))}'
+    if draw(st.integers(0, 39)) in (11, 17, 23, 29):
+        # the same triple inside a world of more than 1000 cells (interior values: Hypothesis over-samples the ends of a range)
+        H, W = draw(st.sampled_from([(36, 36), (16, 100), (100, 16), (300, 16)]))
+        oy, ox = draw(st.integers(4, H - 4 - h)), draw(st.integers(4, W - 4 - w))
+        s = gen.embed(s, H, W, oy, ox)
+        if n is not None:
+            n = gen.embed(n, H, W, oy, ox)
     return {'s': s, 'a': a, 'mode': mode, 'n': n, 'chain': chain, 'seed': draw(st.integers(0, 2**31)), 'space': space}
 
 
@@ -212,13 +219,16 @@ def oracle_reward(case, ctx):
     fired = exp != off if spec['name'] != 'living_reward' else True
     zero = any(v == 0 and not isinstance(v, bool) for k, v in spec.items() if k.startswith('reward'))
     ctx.ev.case(case, nt=fired, classes=[f'{spec["name"]}:{"on" if fired else "off"}', 'mode:' + case['mode'], 'via_factory' if via else 'direct'] + (['zero_valued_parameter'] if zero else [])
-                + (['asked_again_after_in_place_edit'] if edited else []), key=[s, a, n, spec])
+                + (['asked_again_after_in_place_edit'] if edited else []) + (['world>1000cells'] if M.shape(s)[0] * M.shape(s)[1] > 1000 else []), key=[s, a, n, spec])
 
 
 @st.composite
 def strat_term(draw, tier):
     case = draw(triple_s(tier, focus=draw(st.sampled_from(['bump_into_wall', 'reach_exit', 'bump_moving_obstacle', None]))))
     case['spec'] = draw(gen.term_spec_s({'types': ['Exit', 'MovingObstacle', 'Floor', 'Key', 'Wall', 'Door']}, depth=2))
+    if draw(st.integers(0, 9)) == 0:
+        # by construction: a conjunction whose parts fire together (true conjunctions are rare among random compositions)
+        case['spec'] = {'name': 'reduce_all', 'terminating_functions': [{'name': 'reach_exit'}, {'name': 'overlap', 'object_type': 'Exit'}]}
     return case
 
 
@@ -359,7 +369,7 @@ def oracle_hist(case, ctx):
 CHECKS = [
     Check('reward_components', oracle_reward, strategy=strat_reward, examples={'quick': 700, 'thorough': 2500}, shards={'quick': 4, 'thorough': 16},
           rule='each built-in reward x generated finite parameters x (state, action, arbitrary or dynamics-produced next state) against the docstring model, exact value; the same State objects are then edited in place (doors toggled, agent put back) and asked again',
-          required=[f'{n}:on' for n in REWARDS] + ['mode:arbitrary', 'mode:dynamics', 'via_factory', 'direct', 'zero_valued_parameter', 'asked_again_after_in_place_edit']),
+          required=[f'{n}:on' for n in REWARDS] + ['mode:arbitrary', 'mode:dynamics', 'via_factory', 'direct', 'zero_valued_parameter', 'asked_again_after_in_place_edit', 'world>1000cells']),
     Check('termination_components', oracle_term, strategy=strat_term, examples={'quick': 500, 'thorough': 1500}, shards={'quick': 2, 'thorough': 16},
           rule='each built-in termination and nested reduce_any/reduce_all against the model',
           required=['reach_exit:on', 'bump_into_wall:on', 'bump_moving_obstacle:on', 'reduce_any:on', 'reduce_all:on', 'reduce_all:off']),
